@@ -10,6 +10,7 @@ import (
 	"strings"
 	"testing"
 	"testing/synctest"
+	"time"
 
 	"pgregory.net/rapid"
 
@@ -33,11 +34,12 @@ type c12Plan struct {
 	T        int          `json:"t"`
 	P        int          `json:"p"`
 	Restarts []c12Restart `json:"restarts"`
+	Prior    bool         `json:"prior"` // the machines have completed another round earlier in the same process lifetime
 }
 
 func c12Gen(rt *rapid.T) c12Plan {
 	nt := rapid.SampledFrom([][2]int{{2, 2}, {3, 2}, {3, 3}, {4, 3}}).Draw(rt, "nt")
-	p := c12Plan{N: nt[0], T: nt[1], P: rapid.IntRange(0, nt[0]-1).Draw(rt, "p")}
+	p := c12Plan{N: nt[0], T: nt[1], P: rapid.IntRange(0, nt[0]-1).Draw(rt, "p"), Prior: rapid.Bool().Draw(rt, "prior")}
 	k := rapid.IntRange(1, 3).Draw(rt, "nrestarts")
 	seen := map[int]bool{}
 	for i := 0; i < k; i++ {
@@ -69,6 +71,16 @@ func c12Execute(p c12Plan, withRestarts bool, root string) (obs c12Obs) {
 		return
 	}
 	defer w.Close()
+	if p.Prior {
+		if _, err := w.StartDKG(p.N-1, 2, nil); err == nil {
+			err = w.Quiesce(80)
+		}
+		if err != nil {
+			obs.Err = fmt.Errorf("prior round: %w", err)
+			return
+		}
+		time.Sleep(time.Hour)
+	}
 	round, err := w.StartDKG(0, p.T, nil)
 	if err != nil {
 		obs.Err = err
@@ -281,6 +293,9 @@ func c12Run(t *testing.T, st *vstat.Stats, p c12Plan) *viol {
 		st.Class("restart:" + m[2:])
 	}
 	st.Class(fmt.Sprintf("restarts=%d", len(obs.Restarted)))
+	if p.Prior {
+		st.Class("after-an-earlier-round")
+	}
 	if len(obs.Restarted) > 0 {
 		st.NonTrivial(fmt.Sprintf("%d/%d/%d/%v", p.N, p.T, p.P, p.Restarts))
 		st.SampleEvery(10, map[string]any{"n": p.N, "t": p.T, "participant": p.P, "restarts": obs.Restarted, "outcome": "same commitments, same accepted steps, same group key and share as the uninterrupted twin; ceremony completed"})
@@ -315,7 +330,7 @@ func TestC12(t *testing.T) {
 						if job%sn != si {
 							continue
 						}
-						p := c12Plan{N: nt[0], T: nt[1], P: part, Restarts: []c12Restart{{op, mode}}}
+						p := c12Plan{N: nt[0], T: nt[1], P: part, Restarts: []c12Restart{{op, mode}}, Prior: job%3 == 0}
 						st.Eval()
 						report(t, st, "all-points", c12Run(t, st, p), p)
 					}
